@@ -17,7 +17,7 @@ def run(ctx):
     traces = ctx.path("traces.ndjson")
     import os
     p = vlib.run_harness(ctx, binary, ["b2f-c16", "--out", traces, "--salt", os.path.join(vlib.SPEC, "secure", "salt.json"),
-                                       "--n", "3000" if quick else "60000", "--workers", "16"], timeout=3000)
+                                       "--n", "3000" if quick else "400000", "--workers", "16"], timeout=3000)
     if p.returncode != 0:
         raise vlib.Undecided("b2f-c16 harness failed: rc=%d %s" % (p.returncode, p.stderr[-3000:]))
     st = json.loads(p.stdout.strip().splitlines()[-1])
